@@ -365,6 +365,7 @@ class ExprMixin:
         return ZB(z3.And(*out) if len(out) > 1 else out[0])
 
     def compare(self, op, a, b, node=None):
+        self._cmp_node = node
         if isinstance(op, (ast.Eq, ast.Is)):
             return self.py_eq(a, b, isinstance(op, ast.Is))
         if isinstance(op, (ast.NotEq, ast.IsNot)):
@@ -385,6 +386,14 @@ class ExprMixin:
         return eq(a, b)
 
     def eq_hook(self, a, b, identity):
+        """`==` / `!=` / `in` (not `is`) on a value of the traced program, or on the class of one obtained by type(v), dispatches to user code
+        (__eq__ of the value's class, of the class's metaclass): an effect the contract must allow."""
+        if identity or self.st.spec_mode:
+            return None
+        for x in (a, b):
+            if isinstance(x, ZV) and (base_tag(x.tag) in ("Val", "Callee") or getattr(x, "cls_of_val", False)):
+                self.effect("eq", z3.BoolVal(False), getattr(self, "_cmp_node", None))
+                break
         return None
 
     def contains(self, container, x):
